@@ -38,7 +38,7 @@ func checkC18(c *Ctx) {
 		"(W2-paths) every os mutation in Write and its expanded callees acts on a path that is classified (target only as Rename destination; base only MkdirAll; *prev only Remove/RemoveAll; version dir; temporary link), anything else is UNDECIDED. " +
 		"(W2-fresh) the version directory name contains a per-call unique component (time.Now at nano/microsecond resolution or a temp/random name). " +
 		"(W2-frozen) the path fields of Dir are written only at construction; the previous-version field only by Write and the functions it calls. " +
-		"(W3-leftover) every create-type call that fails with EEXIST (Symlink/Link/Mkdir) on a path that is identical on every call is preceded on all paths by a removal of that path; if it is not, a may-dataflow follows the fact 'the creation may have failed because a leftover exists and the path was not re-created since' (dropped where the error is known nil, known not to be ErrExist via errors.Is/os.IsExist/IsNotExist, or on the success edge of a later creation of the same link): reaching the consuming rename with that fact is a VIOLATION (the stale link of the crashed call is published and nil returned), never reaching it without a re-creation is the 'file exists forever' VIOLATION, a successful re-creation discharges it; error handling that cannot be classified, or an os.Readlink comparison, is UNDECIDED. " +
+		"(W3-leftover) every create-type call that fails with EEXIST (Symlink/Link/Mkdir, os.OpenFile with O_CREATE|O_EXCL — lock and marker files included; for a path no rename consumes the finding needs every failure of the creation to abort the write) on a path that is identical on every call is preceded on all paths by a removal of that path; if it is not, a may-dataflow follows the fact 'the creation may have failed because a leftover exists and the path was not re-created since' (dropped where the error is known nil, known not to be ErrExist via errors.Is/os.IsExist/IsNotExist, or on the success edge of a later creation of the same link): reaching the consuming rename with that fact is a VIOLATION (the stale link of the crashed call is published and nil returned), never reaching it without a re-creation is the 'file exists forever' VIOLATION, a successful re-creation discharges it; error handling that cannot be classified, or an os.Readlink comparison, is UNDECIDED. " +
 		"(S2-dir-lifetime) the Dir an in-module caller writes to is traced to its dir.New call (through locals, helpers that return it, the field it is kept in): a Dir constructed in a function that provably runs again for every write (called from a loop, from several places, or by such a function; or constructed in a loop) is a VIOLATION — every Write then sees an empty previous-version field and superseded version directories pile up without any crash; a Dir constructed once by a constructor and kept is OK; an origin that cannot be traced, or a caller that is not provably repeated, is only noted. (S1, NOTE only) crypto/spiffe hands key, chain and anchors to one Write call in one map. " +
 		"A call that matters and cannot be expanded (recursion, go statements, *os.File methods, os functions outside the model) makes every 'required step missing' finding UNDECIDED, never a VIOLATION. " +
 		"NOT decided: the actual file-system states at each crash point, durability (no fsync is demanded), the atomicity of rename(2) and symlink semantics of the OS (assumed), concurrent Writes on one Dir or two Dirs on one target, version directories orphaned by a crash (the statement only asks for cleanup without crashes), relative target paths, clock steps backwards, effects of dynamic calls (interface methods such as the logger, function values of unknown origin are assumed not to touch the target's directory)."
